@@ -27,6 +27,11 @@ from .kernel import Hang, StepCap
 
 RUNNABLE, IDLE, BLOCKED, DONE = "runnable", "idle", "blocked", "done"
 
+# Helpers with a process-global memo keyed by type: the first call for a type
+# takes another path (more line events) than later calls, which would make the
+# pre-emption points of a run depend on what the process executed before.
+_UNTRACED_FUNCTIONS = frozenset(["_is_future_fast", "_isawaitable_fast"])
+
 
 class SimAbort(BaseException):
     """Unwinds parked threads when a run is abandoned (hang / step cap)."""
@@ -108,7 +113,9 @@ class ThreadSim:
 
     # ---- tracing ------------------------------------------------------
     def _global_trace(self, frame, event, arg):
-        if frame.f_code.co_filename in self.traced:
+        code = frame.f_code
+        if code.co_filename in self.traced and \
+                code.co_name not in _UNTRACED_FUNCTIONS:
             return self._local_trace
         return None
 
